@@ -215,3 +215,36 @@ def pick(x, K):
         r = c.choose(x.e, range(K))
         return x if r is None else r
     return x
+
+
+def nth(s, i):
+    """s[i] without a bounds check (spec-level: unspecified outside the sequence; use under a guard)"""
+    if isinstance(s, SymSeq):
+        return mk(s.e[as_z3_int(i)])
+    return s[i]
+
+
+def seq_at(s, k):
+    """s[k] (no bounds check) with concatenations resolved structurally: for s = p1 ++ p2 ++ ... the
+    result is a case split on k against the prefix lengths, so the solver only sees `nth` of atomic
+    sequence terms plus linear arithmetic (z3 is slow on nth-of-concat)."""
+    if not isinstance(s, SymSeq):
+        return s[k]
+    parts = s._parts()
+    if not parts:
+        return mk(s.e[as_z3_int(k)])
+    ke = as_z3_int(k)
+    off = z3.IntVal(0)
+    cases = []
+    for (e, unit) in parts:
+        if unit is not None:
+            cases.append((off, off + 1, unit))
+            off = off + 1
+        else:
+            ln = z3.Length(e)
+            cases.append((off, off + ln, e[ke - off]))
+            off = off + ln
+    r = cases[-1][2]
+    for (lo, hi, v) in reversed(cases[:-1]):
+        r = z3.If(ke < hi, v, r)
+    return mk(z3.simplify(r))
